@@ -156,7 +156,7 @@ def plan_cases(args):
     except Exception as e:  # noqa: BLE001
         import traceback
 
-        if 'File "/repo/' in traceback.format_exc():
+        if f'File "{core.REPO}/' in traceback.format_exc():
             return {"skip": f"{step['op']} raises without a fault: {type(e).__name__}"}
         raise
     return {"n": n}
